@@ -119,8 +119,21 @@ where
     T: Send + 'static,
     F: FnOnce() -> T + Send + 'static,
 {
+    run_process_with_stack(hash_seed, STACK_BYTES, f)
+}
+
+/// Same, with an explicit stack size (container histories do not recurse).
+pub fn run_process_with_stack<T, F>(
+    hash_seed: u64,
+    stack: usize,
+    f: F,
+) -> Result<T, (String, String)>
+where
+    T: Send + 'static,
+    F: FnOnce() -> T + Send + 'static,
+{
     let handle = std::thread::Builder::new()
-        .stack_size(STACK_BYTES)
+        .stack_size(stack)
         .spawn(move || {
             HASH_SEED.with(|s| s.set(Some(hash_seed)));
             // Touch RandomState now so the keys are fixed before anything else runs.
